@@ -102,6 +102,9 @@ type NodeParams struct {
 	ShareThreshold    string `json:"share_threshold"`
 	VstorageThreshold int64  `json:"vstorage_threshold"`
 	OfflineTrigger    int64  `json:"offline_trigger"`
+	// RewardStart is the cumulative reward counter the chain starts with (a genesis imported
+	// from a chain that has been minting for a long time); 0 = fresh chain
+	RewardStart int64 `json:"reward_start,omitempty"`
 }
 
 // Config is the per-run configuration; it is part of the trace (replay needs nothing else).
@@ -286,7 +289,7 @@ func (w *World) Genesis() []byte {
 		np.VstorageThreshold, np.OfflineTrigger)
 	ng.Pool = &nodetypes.Pool{
 		TotalPledged:       sdk.NewInt64Coin(Denom, 0),
-		TotalReward:        sdk.NewInt64Coin(Denom, 0),
+		TotalReward:        sdk.NewInt64Coin(Denom, np.RewardStart),
 		AccRewardPerByte:   sdk.NewInt64DecCoin(Denom, 0),
 		AccPledgePerByte:   sdk.NewInt64DecCoin(Denom, 0),
 		RewardPerBlock:     sdk.NewInt64DecCoin(Denom, 0),
